@@ -3,7 +3,7 @@
 package main
 
 // C03, statement model (JsExpr/StmtModel.v, entry run_xstmt): block, var, if / else, while (also under
-// Options.WhileToFor), do-while, for(;;), throw, break / continue, debugger, with, try, labelled, expression and empty statements against
+// Options.WhileToFor), do-while, for(;;), throw, break / continue, debugger, with, try, switch, labelled, expression and empty statements against
 // js.Parse: the String() of every statement of the program.
 
 import (
@@ -86,7 +86,7 @@ func (g *c03StmtGen) end(ts []c03Jtok) ([]c03Jtok, bool) {
 // stmt returns the tokens of one statement and whether the next token must start a new line
 func (g *c03StmtGen) stmt(depth int) ([]c03Jtok, bool) {
 	r := g.r
-	k := r.Intn(16)
+	k := r.Intn(17)
 	if depth <= 0 && (k < 5 || k == 12 || k >= 14) {
 		k = 5 + r.Intn(7)
 	}
@@ -183,6 +183,33 @@ func (g *c03StmtGen) stmt(depth int) ([]c03Jtok, bool) {
 			ts = c03Cat(ts, g.kw(js.FinallyToken), block())
 		}
 		return ts, false
+	case 16: // switch
+		ts := c03Cat(g.kw(js.SwitchToken), cond(), g.kw(js.OpenBraceToken))
+		hasDefault := false
+		nl := false
+		for i, n := 0, r.Intn(4); i < n; i++ {
+			var head []c03Jtok
+			if !hasDefault && r.Chance(1, 3) {
+				hasDefault = true
+				head = c03Cat(g.kw(js.DefaultToken), c03TkColon)
+			} else {
+				head = c03Cat(g.kw(js.CaseToken), g.expr(), c03TkColon)
+			}
+			if nl {
+				head[0].lt = true
+			}
+			ts = append(ts, head...)
+			nl = false
+			for j, m := 0, r.Intn(3); j < m; j++ {
+				st, snl := g.stmt(depth - 1)
+				if nl && len(st) > 0 {
+					st[0].lt = true
+				}
+				ts = append(ts, st...)
+				nl = snl
+			}
+		}
+		return append(ts, g.kw(js.CloseBraceToken)), false
 	case 12: // for ( init ; cond ; post ) body   — the initialiser is parsed with the In flag off
 		noIn := func() []c03Jtok {
 			for {
